@@ -569,7 +569,9 @@ pub trait Allocator<VM: VMBinding>: Downcast {
                 if fail_with_oom {
                     // Note that we throw a `HeapOutOfMemory` error here and return a null ptr back to the VM
                     trace!("Throw HeapOutOfMemory!");
-                    self.out_of_memory(tls);
+                    if self.get_context().get_alloc_options().allow_oom_call {
+                        self.out_of_memory(tls);
+                    }
                     reset_allocation_state(self);
                     self.get_context()
                         .state
